@@ -1,5 +1,6 @@
 import Zeno.Proofs.Stages
 import Zeno.Proofs.Depth
+import Zeno.Proofs.Life
 import Zeno.Proofs.Warc
 import Zeno.Gen.Stages
 import Zeno.Gen.Item
@@ -14,7 +15,7 @@ applies it to every node at the working depth; `ex` is an arbitrary extractor re
 the site serves).
 -/
 namespace Zeno.Props.C06
-open Zeno Zeno.Model.Item Zeno.Model.Stages Zeno.Model.Warc
+open Zeno Zeno.Model.Item Zeno.Model.Stages Zeno.Model.Warc Zeno.Model.Life
 
 abbrev S : SF := Zeno.Gen.Stages.facts
 abbrev A : AF := Zeno.Gen.Archiver.facts
@@ -116,5 +117,62 @@ example :
     (match postAct S { maxHops := 2 } (fun _ => { assets := [("c1", "/y")], outlinks := ["http://b.example/"] }) { i with resp := 200, body := true } 0 with
       | .extract kids outs => kids.length == 1 && outs == [{ raw := "http://b.example/", hops := 2, via := "http://a.example/" }] | _ => false) = true := by
   decide
+
+/-! ## every seed leaves the pipeline after a bounded number of passes
+
+`pass` (Model/Life.lean) is one trip of a seed's tree through the stage models — `preprocess`, `archive`, `postprocess`,
+the finisher's decision — with arbitrary oracles (`Oracle`: what the normaliser accepts, what the site answers, what the
+extractors find); `life` repeats it until the finisher lets the seed go. `idsOK` says that the nodes created along the way
+get ids not yet used in the tree (they are UUIDs). `Start R d t` (Proofs/Life.lean) is the shape of a tree at the start of a
+pass: depth `d`, all pending nodes Fresh and on level `d`, ranked (chains of at most `R` redirects, at most three asset
+levels). -/
+
+abbrev I : IF := Zeno.Gen.Item.facts
+
+theorem facts_life_ok : (okPost S && okSets I && !(S.preSeencheckGuard == "always")) = true := by decide
+
+/-- **One pass either ends the seed's life or deepens its tree by exactly one level** (domains-crawl off); and
+`preprocess` never meets a node it would panic on. Whatever the site and the extractors return. -/
+theorem c06_pass_finishes_or_deepens (cfg : Cfg) (hdc : cfg.domainsCrawl = false) (o : Oracle) (seen : Seen) (d : Nat) (t : Tree)
+    (h : Start cfg.maxRedirect d t) (hid : passIds S I cfg o seen t = true) :
+    (pass S I cfg o seen t).pre = .ok ∧
+      ((pass S I cfg o seen t).act = .finish ∨
+       ((pass S I cfg o seen t).act = .feedback ∧ (pass S I cfg o seen t).tree.maxDepth = d + 1 ∧
+         Start cfg.maxRedirect (d + 1) (pass S I cfg o seen t).tree)) := by
+  obtain ⟨h1, h2⟩ := pass_progress S (by decide) (by decide) I (by decide) cfg hdc o seen h hid
+  refine ⟨h1, ?_⟩
+  rcases h2 with h2 | ⟨h2, h3⟩
+  · exact Or.inl h2
+  · exact Or.inr ⟨h2, h3.depth, h3⟩
+
+/-- **No tree in start-of-pass shape is deeper than `4 · max-redirect + 3`**: at most three asset levels below the page,
+each reached through at most `max-redirect` redirects, and as many before the page itself. -/
+theorem c06_depth_le (R d : Nat) (t : Tree) (h : Start R d t) : t.maxDepth ≤ 4 * R + 3 := by
+  rw [h.depth]; exact start_depth_le h
+
+/-- **Every seed finishes after a bounded number of pipeline passes.** A seed entering the pipeline (a lone Fresh node) is
+let go by the finisher after at most `4 · max-redirect + 4` passes — for every site behaviour, every extractor result and
+every normaliser verdict in every pass (domains-crawl off). -/
+theorem c06_seed_finishes_within (cfg : Cfg) (hdc : cfg.domainsCrawl = false) (os : List Oracle) (seen : Seen) (i : Info)
+    (hf : i.st = .fresh) (hr : i.redirects = 0) (hids : idsOK S I cfg os seen (.node i .nil) = true)
+    (hlen : 4 * cfg.maxRedirect + 4 ≤ os.length) :
+    (life S I cfg os seen (.node i .nil)).2.isSome = true ∧ (life S I cfg os seen (.node i .nil)).1 ≤ 4 * cfg.maxRedirect + 4 := by
+  have := life_bounded S (by decide) (by decide) I (by decide) cfg hdc os seen 0 _ (start_seed cfg.maxRedirect i hf hr) hids (by omega)
+  exact ⟨this.1, by omega⟩
+
+/-- non-vacuity: a page with one image (two passes), and a redirect chain cut at `--max-redirect 1` (two passes, the second hop is
+not followed); ids stay distinct -/
+example :
+    let seed : Tree := .node { id := "s", url := "", st := .fresh, raw := "r" } .nil
+    let nr (u : String) : Option NormRes := some { canon := u, host := "h.x", path := "/x" }
+    let o1 : Oracle := { norm := fun id => if id == "s" then nr "u" else nr "v",
+                         srv := fun id => if id == "s" then some { status := 200, html := true, body := true } else some { status := 200 },
+                         ex := fun id => if id == "s" then { assets := [("k", "/i")] } else {} }
+    let o2 : Oracle := { norm := fun id => nr id, srv := fun _ => some { status := 302, loc := "/n" },
+                         ex := fun id => { assets := [(id ++ "r", "/n")] } }
+    (life S I {} [o1, o1, o1] [] seed).1 = 2 ∧ (life S I {} [o1, o1, o1] [] seed).2.isSome = true ∧
+    idsOK S I {} [o1, o1, o1] [] seed = true ∧
+    (life S I { maxRedirect := 1 } [o2, o2, o2, o2] [] seed).1 = 2 ∧ idsOK S I { maxRedirect := 1 } [o2, o2, o2, o2] [] seed = true := by
+  decide +kernel
 
 end Zeno.Props.C06
